@@ -1,7 +1,8 @@
 //go:build verif
 
 //verif:dir p2p/net/swarm
-//verif:obligation C06.d swarm shutdown waits for a connection that is still being admitted: while addConn is inside the Connected notification of a connection (slow handler), the connection is closed (by the remote, by the handler's owner, or not at all) and Swarm.Close's final wait on the swarm's references starts: the wait does not return before the connection's Connected notification has returned, its Disconnected notification has been delivered and its accept loop has ended - so an admitted connection is never left without its notifications by a shutdown that overtook it - and it does return once they have
+//verif:also C17 VerifC06dCloseWaitsForAdmission
+//verif:obligation C06.d swarm shutdown waits for a connection that is still being admitted: while addConn is inside the Connected notification of a connection (slow handler), the connection is closed (through the swarm, by the remote at transport level - which the swarm only learns from its accept loop -, or not at all) and Swarm.Close's final wait on the swarm's references starts: the wait does not return before the connection's Connected notification has returned, its Disconnected notification has been delivered and its accept loop has ended - so an admitted connection is never left without its notifications by a shutdown that overtook it - and it does return once they have
 //verif:obligation C06.e every call of the real Swarm.Close - also a second call that overlaps a Close still waiting for a slow Disconnected handler - returns only after Disconnected has been delivered; the event emitter is closed exactly once
 //verif:bound one connection, one slow Connected handler; cooperative schedule with the handler parked at an explicit gate
 //verif:stub transport connection stub whose AcceptStream fails once the connection is closed; event emitter stub; the real connection events emitter, addConn, Conn.start, Conn.Close
@@ -19,10 +20,15 @@ import (
 
 type vC06dTc struct {
 	vC06tc
-	closedCh chan struct{}
+	closedCh  chan struct{}
+	closeGate chan struct{}
 }
 
 func (c *vC06dTc) Close() error {
+	if g := c.closeGate; g != nil { // tearing a transport connection down takes a while: everything started before it gets to run
+		c.closeGate = nil
+		<-g
+	}
 	c.closes++
 	if c.closes == 1 {
 		close(c.closedCh)
@@ -42,13 +48,13 @@ func VerifC06dCloseWaitsForAdmission() {
 	s.conns.m = map[peer.ID][]*Conn{}
 	s.directConnNotifs.m = map[peer.ID][]chan struct{}{}
 	gate := make(chan struct{})
-	inConnected, connectedDone, disconnected := false, false, false
+	inConnected, connectedDone, disconnected, closedAtDisconnect := false, false, false, false
 	s.connectionEventsEmitter = newConnectionEventsEmitter(func(peer.ID) network.Connectedness { return network.Connected }, &vC06emitter{},
 		func(c *Conn) {
 			inConnected = true
 			<-gate // a slow Connected handler
 			connectedDone = true
-		}, func(c *Conn) { disconnected = true })
+		}, func(c *Conn) { disconnected, closedAtDisconnect = true, c.conn.IsClosed() })
 	tc := &vC06dTc{vC06tc: vC06tc{p: "peerA"}, closedCh: make(chan struct{})}
 	var admitted *Conn
 	returned := false
@@ -69,9 +75,20 @@ func VerifC06dCloseWaitsForAdmission() {
 		s.conns.RLock()
 		c := s.conns.m["peerA"][0]
 		s.conns.RUnlock()
+		slow := make(chan struct{})
+		tc.closeGate = slow
 		go c.Close()
 		settle()
+		vAssert(!disconnected, "Disconnected is not announced while the transport connection is still being torn down (it would still read as open)")
+		close(slow)
+		settle()
 		vCover("closed-while-being-admitted")
+	}
+	hangup := !closeEarly && vBool()
+	if hangup {
+		// the remote hangs up: only the transport connection knows, the swarm learns it from its accept loop
+		tc.Close()
+		vCover("remote-hung-up-while-being-admitted")
 	}
 	waited := false
 	go func() {
@@ -83,12 +100,22 @@ func VerifC06dCloseWaitsForAdmission() {
 	close(gate)
 	settle()
 	vAssert(returned && connectedDone, "the admission completes")
-	if !closeEarly {
+	if !closeEarly && !hangup {
 		vAssert(!waited, "shutdown keeps waiting while the connection's accept loop runs")
-		admitted.Close()
+		slow := make(chan struct{})
+		tc.closeGate = slow
+		go admitted.Close()
+		settle()
+		vAssert(!disconnected, "Disconnected is not announced while the transport connection is still being torn down (it would still read as open)")
+		close(slow)
 		settle()
 	}
-	vAssert(disconnected, "the connection's Disconnected notification is delivered")
+	vAssert(disconnected, "the connection's Disconnected notification is delivered (also when the remote hung up before the accept loop started)")
+	vAssert(closedAtDisconnect, "when Disconnected is delivered the connection already reports itself closed (observers use IsClosed to discard reports that arrive late)")
+	s.conns.RLock()
+	left := len(s.conns.m["peerA"])
+	s.conns.RUnlock()
+	vAssert(left == 0, "a connection that is gone is no longer listed for the peer")
 	vAssert(waited, "shutdown returns once the notifications are delivered and the accept loop has ended")
 	s.connectionEventsEmitter.Close()
 }
